@@ -142,8 +142,34 @@ JudgeCtor(r) ==
     ELSE IF ~CtorDictOK(r.sig, r.shape, r.out) THEN Verdict(r.id, "REJECT", "FieldBinding", 0, TRUE, TRUE, "")
     ELSE Verdict(r.id, "ACCEPT", "", 0, TRUE, TRUE, "")
 
+(* ---- end to end : C01.  record: [id, pass = "e2e", in (the user's chain as a term), out (the AST the     *)
+(*      executor received), out2 (after the backend passes), mean: Seq over datasets of the value CPython    *)
+(*      computed running the chain directly on the model data, exc]                                          *)
+(* the term's value on dataset d is inside the modelled fragment (no 32-bit guard hit) and is not the reference *)
+Differs(t, d, ref) == LET v == EvalOn(t, d) IN ~IsUnm(v) /\ ~DeepUnm(v) /\ v # ref
+JudgeE2E(r) ==
+    IF r.exc # "" THEN Verdict(r.id, "REJECT", "Raised", 0, TRUE, FALSE, r.exc)
+    ELSE
+    LET usable == {d \in 1..NData : Usable(r.mean[d])}
+        nontriv == \E d \in usable : NonEmpty(r.mean[d])
+        (* spec honesty: the specification's own reading of the user's chain must agree with CPython *)
+        oracleBad == {d \in 1..NData : LET v == EvalOn(r.in, d) IN
+                         ~IsUnm(v) /\ ~DeepUnm(v) /\ ~IsUnm(r.mean[d]) /\
+                         (IF IsErr(v) \/ IsErr(r.mean[d]) THEN IsErr(v) # IsErr(r.mean[d]) ELSE v # r.mean[d])}
+    IN IF oracleBad # {} THEN Verdict(r.id, "ORACLE", "SemVsCPython", CHOOSE d \in oracleBad : TRUE, nontriv, FALSE, "")
+       ELSE IF ~WellFormed(r.out) THEN Verdict(r.id, "REJECT", "WellFormed", 0, nontriv, TRUE, "")
+       ELSE IF \E d \in usable : Differs(r.out, d, r.mean[d]) THEN
+            Verdict(r.id, "REJECT", "ExecutorAst", CHOOSE d \in usable : Differs(r.out, d, r.mean[d]), nontriv, TRUE, "")
+       ELSE IF r.exc2 # "" THEN Verdict(r.id, "REJECT", "BackendRaised", 0, nontriv, TRUE, r.exc2)
+       ELSE IF \E d \in usable : Differs(r.out2, d, r.mean[d]) THEN
+            Verdict(r.id, "REJECT", "AfterBackendPasses",
+                    CHOOSE d \in usable : Differs(r.out2, d, r.mean[d]), nontriv, TRUE, "")
+       ELSE IF usable = {} THEN Verdict(r.id, "ACCEPT", "vacuous", 0, FALSE, TRUE, "")
+       ELSE Verdict(r.id, "ACCEPT", "", 0, nontriv, TRUE, "")
+
 Judge(r) ==
     CASE r.pass = "simplify" -> JudgeSimplify(r)
+      [] r.pass = "e2e" -> JudgeE2E(r)
       [] r.pass = "sugar" -> JudgeSugar(r)
       [] r.pass = "helper" -> JudgeSimplify(r)     \* same relational clauses: Scoped, Preserve, WellFormed
       [] r.pass = "ctor" -> JudgeCtor(r)
